@@ -13,15 +13,23 @@ func init() {
 
 var vC09Keys = [...]string{"a/b", "m~n", "a~1b", "", "é", "k"}
 
+// keys whose JSON text needs escapes that differ from Go's (control characters, DEL, a
+// non-printable astral rune, quote and backslash, HTML-sensitive characters)
+var vC09CtlKeys = [...]string{"x\u0001", "a\u007fb", "q\"\\", "<&>", "\U000e0001", "t\tn\n"}
+
 func vKeyObj(nkeys int, inner int) jsonObject {
 	o := jsonObject{}
+	keys := vC09Keys[:]
+	if vParam("KEYSET", 0) == 1 {
+		keys = vC09CtlKeys[:]
+	}
 	for i := 0; i < nkeys; i++ {
 		switch vChoice(3) {
 		case 0:
 		case 1:
-			o[vC09Keys[i]] = vNum()
+			o[keys[i]] = vNum()
 		default:
-			o[vC09Keys[i]] = vNumArray(inner)
+			o[keys[i]] = vNumArray(inner)
 		}
 	}
 	return o
